@@ -35,6 +35,12 @@ class Cancel(BaseException):
         return "Cancel(%d)" % self.serial
 
 
+# what a consumer has to catch to see a cancellation on either backend (token loop / asyncio)
+import asyncio as _asyncio  # noqa: E402
+
+CANCEL = (Cancel, _asyncio.CancelledError)
+
+
 class Interrupt(BaseException):
     """EINTR analogue: thrown at a suspension point, absorbed by the token"""
 
